@@ -1968,6 +1968,8 @@ class Engine:
             return Joined(list(args[0].items))
         if isinstance(recv, dict) and name in ('values', 'keys', 'items') and not args:
             return PyList(list(getattr(recv, name)()))
+        if isinstance(recv, str) and name == 'replace' and len(args) == 2 and all(isinstance(x, str) for x in args):
+            return recv.replace(args[0], args[1])
         if isinstance(recv, str) and name in ('lower', 'upper', 'strip') and not args:
             return getattr(recv, name)()
         if isinstance(recv, dict) and name == 'update' and len(args) == 1 and isinstance(args[0], dict) and not kwargs:
@@ -2237,6 +2239,8 @@ class Engine:
                 return str(args[0], args[1])
             except UnicodeDecodeError:
                 raise PyRaise('UnicodeDecodeError')
+        if name == 'str' and len(args) == 1 and isinstance(args[0], (int, float, str)) and not isinstance(args[0], bool):
+            return str(args[0])
         if name == 'str':
             from .models.bytesmodel import BSeq
             if args and isinstance(args[0], BSeq) and len(args) == 2 and args[1] == 'ascii':
